@@ -149,6 +149,12 @@ def run(repo, rep, tier):
     from . import c02
     L.borrow(repo, rep, "R07.4", "C02", lambda r, p: c02._quote_paths(
         r, p, tier), ("BAD", "class-missing"), minimum=3)
+    # tal:attributes entries are cut out of the statement value by the part
+    # splitter and the entry pattern (C01 owns the statement patterns)
+    from . import c01 as _c01
+    L.borrow(repo, rep, "R07.1", "C01", _c01.statement_patterns,
+             ("statement-space", "statement-expression-width",
+              "split-parts-steps"), minimum=3)
     L.state_rule(repo, rep)
 
 
